@@ -56,24 +56,9 @@ Theorem partition_of_unity_plain :
         = if Nat.eqb k 0 then Q2Qc 1 else Q2Qc 0.
 Proof. exact (@partition_of_unity). Qed.
 
-(* ---------- refutations of the unguarded statements (witnesses replayed on the library) *)
-(* the empty grid: grid[0] is read (and weights[0] written) outside the vectors *)
-Lemma in_bounds_refuted_empty :
-  exists (around : Qc) (max_deriv : N), fdiff nil max_deriv around = ErrOOB 0 0.
-Proof. exists (Q2Qc 0), 0%N. vm_compute. reflexivity. Qed.
-
-(* len_w = len_g * (max_deriv + 1) wraps modulo 2^32: two distinct points, max_deriv = 2^31,
-   two weights are allocated and index 2 is accessed *)
-Lemma in_bounds_refuted_wrap :
-  exists (grid : list Qc) (around : Qc) (max_deriv : N),
-    qc_distinct grid = true /\ grid <> nil /\ N.lt max_deriv W32 /\
-    fdiff grid max_deriv around = ErrOOB 2 2.
-Proof.
-  exists (cons (Q2Qc 0) (cons (Q2Qc 1) nil)), (Q2Qc 0), 2147483648%N.
-  split; [vm_compute; reflexivity|]. split; [discriminate|].
-  split; [vm_compute; reflexivity|]. vm_compute. reflexivity.
-Qed.
-
+(* ---------- outside the property's domain ---------- *)
+(* (The empty grid and a wrapping index space used to leave the vectors; since commits
+   a89e3b6 / e537b42 the function throws there: FdiffRefine.fdiff_total.) *)
 (* a repeated grid point: the weights are not numbers (SymEngine's div(a, 0) = zoo / nan) *)
 Lemma exact_refuted_repeated_point :
   exists (grid : list Qc) (around : Qc) (max_deriv : N),
